@@ -636,3 +636,36 @@ func c11NoEarlyMarshal(c *Ctx) {
 	c.Check(lenM != nil, R, "anchor:uTLS QUICTransportParametersExtension.Len resolves", "-", "expected-zero rule: the method object is found in the type-checked program")
 	_ = total
 }
+
+// ---- C18.5: the HTTP/3 frame, SETTINGS, capsule and datagram parsers never index or slice out of bounds ----
+
+func c18Bounds(c *Ctx) {
+	const R = "C18.5"
+	var roots []*ssa.Function
+	for _, r := range [][3]string{{h3, "frameParser", "ParseNext"}, {h3, "", "ParseCapsule"}, {h3, "", "parseHeaders"}, {h3, "", "parseTrailers"}, {h3, "rawConn", "receiveDatagrams"}, {h3, "", "parseSettingsFrame"}} {
+		f, err := c.P.Func1(r[0], r[1], r[2])
+		if err != nil {
+			c.Bad(R, "root:"+r[2], "-", "parse entry point not found")
+			continue
+		}
+		roots = append(roots, f)
+	}
+	fns := c.P.reachStatic(roots, func(pk string) bool { return pk == modPath+"/http3" })
+	c.Floor(R, "functions reachable from the http3 parse entry points", len(fns), 10)
+	unp, err := compilerUnproven(c.P.RepoDir, c.P.GOARCH, []string{"./http3/"})
+	if err != nil {
+		c.Err(R, "compiler bounds-check listing (http3)", err)
+		return
+	}
+	c.Floor(R, "bounds checks the compiler could not remove in http3 (listing alive)", len(unp), 10)
+	sites := c.P.bndSites(fns, unp, nil)
+	c.Floor(R, "index/slice/make/panic/assert/div sites on the http3 parse side", len(sites), 2)
+	for _, st := range sites {
+		c.FuncsSet[funcName(st.Fn)] = true
+		key := st.Expr
+		if i := strings.Index(key, " ("); i > 0 {
+			key = key[:i]
+		}
+		c.Check(st.OK, R, "bnd:"+key, c.P.InstrPos(st.Instr), fmt.Sprintf("%s — %s", st.Expr, st.Why))
+	}
+}
